@@ -1020,6 +1020,72 @@ pub fn gen_zone(rng: &mut Rng) -> Vec<Record> {
     z
 }
 
+fn wire_name(s: &str) -> String {
+    let mut b = vec![];
+    for l in s.trim_end_matches('.').split('.').filter(|l| !l.is_empty()) {
+        b.push(l.len() as u8);
+        b.extend_from_slice(l.as_bytes());
+    }
+    b.push(0);
+    hex(&b)
+}
+
+/// One well-formed RDATA (wire form) for every record type the zone parser or the API can put into a zone —
+/// DNSSEC types included (DS at a delegation, CDS / CDNSKEY / KEY / SIG / DNSKEY / NSEC3PARAM / NSEC …).
+/// Tokens that the real codec does not take unchanged are dropped (checked on every run: `usable_types`).
+pub fn every_type_rdata() -> Vec<(u16, String)> {
+    let d32 = "00112233445566778899aabbccddeeff00112233445566778899aabbccddeeff";
+    let key = "030100019a8b7c6d5e4f30211203f4e5d6c7b8a99a8b7c6d5e4f30211203f4e5d6c7b8a9";
+    vec![
+        (1, "0a000005".into()),
+        (28, "20010db8000000000000000000000005".into()),
+        (15, format!("000a{}", wire_name("mail.example.com."))),
+        (16, "027478".into()),
+        (33, format!("000100020035{}", wire_name("srv.example.com."))),
+        (13, "03787878027979".into()),
+        (257, "000569737375656c657473656e63727970742e6f7267".into()),
+        (43, format!("30390802{d32}")),
+        (59, format!("30390802{d32}")),
+        (48, format!("01010308{key}")),
+        (60, format!("01010308{key}")),
+        (25, format!("00000308{key}")),
+        (24, format!("0001080200000e105f0000005e0000003039{}{}", wire_name("example.com."), "00112233445566778899aabbccddeeff")),
+        (46, format!("0001080200000e105f0000005e0000003039{}{}", wire_name("example.com."), "00112233445566778899aabbccddeeff")),
+        (51, "0100000a04aabbccdd".into()),
+        (47, format!("{}000140", wire_name("z.example.com."))),
+        (52, format!("030101{d32}")),
+        (44, "0101000102030405060708090a0b0c0d0e0f10111213".into()),
+        (35, "0064000a0155074532552b7369700000".into()),
+        (64, "000100".into()),
+        (65, "000100".into()),
+        (61, "99010d045e".into()),
+        (99, "0576737066310a".into()),
+        (65280, "deadbeef".into()),
+        (10, "00ff".into()),
+    ]
+}
+
+/// the entries of `every_type_rdata` that survive parse → emit unchanged at `owner`
+pub fn usable_types(owner: &str) -> Vec<String> {
+    let name = name_tok(&n(owner));
+    let mut out = vec![];
+    for (t, rd) in every_type_rdata() {
+        let tok = format!("{name},{t},1,300,x{rd}");
+        match parse_rec(&tok) {
+            Some(r) if rec_tok(&r) == tok => out.push(tok),
+            _ => {}
+        }
+    }
+    out
+}
+
+/// does the journal's row encoder (`BinEncoder::new`, 65 535 octets) take this record?
+pub fn row_fits(r: &Record) -> bool {
+    let mut buf = Vec::new();
+    let mut enc = BinEncoder::new(&mut buf);
+    r.emit(&mut enc).is_ok()
+}
+
 /// set for the thorough tier: RDATA of 16 000 … 65 000 octets are generated at random as well
 pub static GIANTS: std::sync::atomic::AtomicBool = std::sync::atomic::AtomicBool::new(false);
 
